@@ -14,7 +14,7 @@ def run(tier, replay=None):
     if replay:
         return transport.replay(v, replay)
     v.assumptions = [
-        "C08's domain: controller reply delays below the timeout, no strays; all calls of a scenario address the SAME controller on a shared fixed port (G_c08_fixed, G_c08_4) or ephemeral ports (G_c08_eph), or queue for the fixed port and then use TCP, each to its own controller (G_c08_tcp); the farm's reply carries the tag of the request it answers, so a crossed reply is visible in the returned value",
+        "C08's domain: controller reply delays below the timeout, no strays; all calls of a scenario address the SAME controller on a shared fixed port (G_c08_fixed, G_c08_4, G_c08_udp2: two connected-UDP calls among them) or ephemeral ports (G_c08_eph), or queue for the fixed port and then use TCP, each to its own controller (G_c08_tcp); the farm's reply carries the tag of the request it answers, so a crossed reply is visible in the returned value",
         "whether a memory race happened is observed by the Go race detector (-race build of the harness, same scripts + discovery + listener shutdown); every report with a frame in uhppote-core is a violation",
         "timing: see C03",
     ]
@@ -29,7 +29,7 @@ def run(tier, replay=None):
     ])
     # G_mixed_fixed: what an error path (refused / reset / unanswered TCP peer, silence) leaves behind must not keep the
     # calls queued behind it from being served
-    groups = ["G_c08_fixed", "G_c08_eph", "G_c08_4", "G_c08_tcp", "G_mixed_fixed"]
+    groups = ["G_c08_fixed", "G_c08_eph", "G_c08_4", "G_c08_tcp", "G_c08_udp2", "G_mixed_fixed"]
     n = 40 if tier == "quick" else 500
     total, drift, _ = transport.run_groups(v, groups, n)
     # the schedule between Transport!Finish and Transport!Return, forced with a gate around the real driver
